@@ -8,8 +8,9 @@ actors (mrp processes), at the granularity of martian/core/pipestance.go:
           f.Close()                                                                     --   (atomic
       } else if os.IsExist(err) {                                                       --    test-and-set
           return &PipestanceLockedError{…}                                              --    by the OS)
-      } else { log }
-      util.RegisterSignalHandler(self)                                                  -- register p
+      } else { log }                                                                    -- acquireErr p: ANY other error
+      util.RegisterSignalHandler(self)                                                  -- register p      (EPERM, ENOSPC, EROFS, EIO …):
+                                                                                        --                 logged, and Lock() goes on
       self.metadata.WriteTime(Lock)
       return nil
   }
@@ -18,6 +19,11 @@ actors (mrp processes), at the granularity of martian/core/pipestance.go:
                   process dies through a handled signal / DieIf)
   SIGKILL / crash: nothing runs, the file stays                                         -- kill p
   "delete the _lock file in … and start Martian again" (operator)                       -- rmLock
+
+  Runtime.InvokePipeline (a START): directory must be empty; instantiatePipeline → Lock();      -- start p
+      on an instantiation error `os.RemoveAll(pipestancePath)` — since the repair of the
+      "refused start deletes the running pipestance" defect not when the error is
+      PipestanceLockedError (regenerated fact `Gen.c15RefusedStartRemovesDir`).
 
 The exclusive create is the regenerated fact `Gen.c15LockExclusive`.  There is no
 heartbeat and no automatic stale-lock takeover in the code: a lock left by a
@@ -44,13 +50,24 @@ inductive Act
   | signal (p : Nat)
   | kill (p : Nat)
   | rmLock
+  /-- `Lock()` when the create of `_lock` fails with an error other than "exists": the
+  error is logged, the signal handler is registered and `Lock()` returns nil although
+  no file was created.  (Its callers then fail on the first operation that needs the
+  lock — "Pipestance is in read only mode" — and `Unlock()`; that sequel is an
+  `unlock`-like step of its own, not part of this action.) -/
+  | acquireErr (p : Nat)
+  /-- `Runtime.InvokePipeline` by a second mrp that saw the directory still empty: `Lock()`,
+  and on refusal the clean-up of `InvokePipeline` -/
+  | start (p : Nat)
   deriving DecidableEq, Repr
 
 def drop (p : Nat) (l : List Nat) : List Nat := l.filter (· != p)
 
 /-- one transition; the Bool is `Lock()`'s verdict for `acquire` (false = PipestanceLockedError).
-`regFirst` = the regenerated fact "RegisterSignalHandler is called before the lock is owned". -/
-def step (regFirst : Bool) (s : St) : Act → St × Bool
+`regFirst` = the regenerated fact "RegisterSignalHandler is called before the lock is owned";
+`startRm` = the regenerated fact "a start refused with PipestanceLockedError removes the
+pipestance directory" (and with it the owner's `_lock`). -/
+def step (regFirst startRm : Bool) (s : St) : Act → St × Bool
   | .acquire p =>
       if s.lockFile then
         ({ s with registered := if regFirst then p :: s.registered else s.registered }, false)
@@ -64,6 +81,11 @@ def step (regFirst : Bool) (s : St) : Act → St × Bool
   | .kill p =>
       ({ s with holders := drop p s.holders, registered := drop p s.registered }, true)
   | .rmLock => ({ s with lockFile := false }, true)
+  | .acquireErr p => ({ s with registered := p :: s.registered }, true)
+  | .start p =>
+      if s.lockFile then
+        (if startRm then { s with lockFile := false } else s, false)
+      else ({ s with lockFile := true, holders := p :: s.holders }, true)
 
 /-- what the code structure allows: `register` only by an owner that has not yet
 registered, `unlock` only by an owner, `acquire` only by a process that does not
@@ -76,16 +98,20 @@ def enabled (s : St) : Act → Bool
   | .signal _ => true
   | .kill _ => true
   | .rmLock => true
+  | .acquireErr p => !s.holders.contains p
+  | .start p => !s.holders.contains p
 
-/-- the one remaining assumption: the operator deletes `_lock` only when no
-process owns the pipestance -/
+/-- the two remaining assumptions: the operator deletes `_lock` only when no
+process owns the pipestance; the create of `_lock` either succeeds or fails with
+"exists" (no `acquireErr`: see `lts_create_error_breaks_exclusion`) -/
 def disciplined (s : St) : Act → Bool
   | .rmLock => s.holders.isEmpty
+  | .acquireErr _ => false
   | _ => true
 
-def run (regFirst : Bool) (ok : St → Act → Bool) : St → List Act → Option St
+def run (regFirst startRm : Bool) (ok : St → Act → Bool) : St → List Act → Option St
   | s, [] => some s
-  | s, a :: r => if enabled s a && ok s a then run regFirst ok (step regFirst s a).1 r else none
+  | s, a :: r => if enabled s a && ok s a then run regFirst startRm ok (step regFirst startRm s a).1 r else none
 
 def init : St := { lockFile := false, holders := [], registered := [] }
 
